@@ -381,4 +381,44 @@ def verifySeal (ck : Checks) (C : Crypto) (versions : Nat → Option Params) (cp
     else if h.sealSigner == .bad || h.sealSigner == .stranger || h.sealSigner != c.signer then .err .sealer
     else verifyMain ck C versions cp seedHdr lb certHdr certLb h
 
+
+/-! ## Look-back resolution (`verifyConsensusField`, `getLookBackHeader`, `getLookBackValReader`,
+`GetLookBackBlockNumber`) for the entry points that resolve the look-back themselves -/
+
+structure LbCfg where
+  seedLookBack : Nat
+  stakeLookBack : Nat
+  deriving Repr
+
+/-- `GetLookBackBlockNumber`: `num - cfg` when `num > cfg`, else the genesis block -/
+def back (n k : Nat) : Nat := if n > k then n - k else 0
+
+structure Heights where
+  stake : Nat        -- validator set of the precommit voters and the proposer: LookBackStake
+  seed : Nat         -- sortition seed: LookBackSeed
+  certSeed : Nat     -- certificate seed: LookBackCertSeed = ACoCHTFrequency
+  certStake : Nat    -- certificate validator set: LookBackCertStake = 2 * ACoCHTFrequency
+  deriving Repr, DecidableEq
+
+def lookBackHeights (cfg : LbCfg) (n : Nat) : Heights :=
+  ⟨back n cfg.stakeLookBack, back n cfg.seedLookBack, back n Gen.acochtFrequency, back n (2 * Gen.acochtFrequency)⟩
+
+/-- the canonical chain as the verifier reads it: the header at a height, and the validator set its ValRoot commits to -/
+structure ChainView where
+  header : Nat → Option LbHeader
+  vals : Nat → Option LookBack
+
+/-- `VerifySeal` / `VerifyHeader(seal)` with the look-back resolved from the chain -/
+def verifySealResolved (ck : Checks) (C : Crypto) (versions : Nat → Option Params) (cp : Params) (cfg : LbCfg)
+    (chain : ChainView) (h : Header) : Res :=
+  let hs := lookBackHeights cfg h.number
+  match chain.header hs.seed, chain.vals hs.stake with
+  | some seedHdr, some lb =>
+    if isCertRound h.number then
+      match chain.header hs.certSeed, chain.vals hs.certStake with
+      | some ch, some clb => verifySeal ck C versions cp seedHdr lb (some ch) clb h
+      | _, _ => .err .ancestor
+    else verifySeal ck C versions cp seedHdr lb none ⟨[], 0⟩ h
+  | _, _ => .err .ancestor
+
 end YouVerif.C01
